@@ -171,6 +171,10 @@ def run(prog: Program, col: Collector, tier: str, refs: Optional[Refs] = None, c
     col.rule("R16.11", "a candidate without parameters is compared as the container of Any (accepted only by patterns whose parameter is Any)", floor=2)
     _bare_candidate(prog, col, refs, cat)
 
+    # ---------------------------------------------------------------- R16.15 the type of a VALUE is never memoised by equality
+    col.rule("R16.15", "deep_type and its handlers are not memoised on the value (equal values can have different types: 1 == 1.0 == True)", floor=3)
+    _deep_type_not_memoised(prog, col, refs)
+
     # ---------------------------------------------------------------- R16.14 exception handlers of the oracle do not decide
     col.rule("R16.14", "an exception handler inside the subtype oracle re-raises or asks again - it never answers with a constant", floor=2)
     _oracle_handlers_do_not_decide(prog, col, refs, cat)
@@ -938,11 +942,63 @@ def _bare_candidate(prog: Program, col: Collector, refs: Refs, cat: Catalogue):
                               f"when the candidate has no parameters the handler returns `{norm(st.value)}`: the bare container (= container of anything) is accepted by a "
                               "parametrised pattern other than <Any>", f.loc(st))
                     break
+        # ... and that branch comes FIRST: a verdict that quantifies over the candidate's parameters (all(... for a in sub_args), zip)
+        # is vacuously true for the bare container, so every such return must be dominated by the emptiness test
+        from ..cfg import CFG
+        cfg = CFG(f.node)
+        empties = []
+        for node in walk_no_nested(f.node):
+            if isinstance(node, ast.If):
+                t_, neg_ = node.test, False
+                while isinstance(t_, ast.UnaryOp) and isinstance(t_.op, ast.Not):
+                    t_, neg_ = t_.operand, not neg_
+                if isinstance(t_, ast.Name) and t_.id in sub_args and neg_ and node.body and isinstance(node.body[-1], (ast.Return, ast.Raise)):
+                    empties.append(node)
+                # `if len(cls_args) != len(sub_args): return ...` pins the number of parameters for what follows
+                elif node.body and isinstance(node.body[-1], (ast.Return, ast.Raise)) and any(
+                        isinstance(y, ast.Call) and isinstance(y.func, ast.Name) and y.func.id == "len" and y.args and isinstance(y.args[0], ast.Name) and y.args[0].id in sub_args
+                        for y in ast.walk(node.test)):
+                    empties.append(node)
+        for r_ in [x for x in walk_no_nested(f.node) if isinstance(x, ast.Return) and x.value is not None]:
+            quant = [g for g in ast.walk(r_.value) if isinstance(g, (ast.GeneratorExp, ast.ListComp)) and any(
+                isinstance(y, ast.Name) and y.id in sub_args for gen in g.generators for y in ast.walk(gen.iter))]
+            if not quant or not any(isinstance(c_, ast.Call) and isinstance(c_.func, ast.Name) and c_.func.id == "all" for c_ in ast.walk(r_.value)):
+                continue
+            # `len(sub_args) == len(cls_args) == k and all(...)` pins the number of parameters: not vacuous
+            pinned = any(isinstance(c_, ast.Compare) and any(isinstance(y, ast.Call) and isinstance(y.func, ast.Name) and y.func.id == "len" and y.args
+                                                              and isinstance(y.args[0], ast.Name) and y.args[0].id in sub_args for y in ast.walk(c_))
+                         for c_ in ast.walk(r_.value))
+            dominated = any(cfg.dominates(a, b) for e_ in empties for a in cfg.nodes_for(e_) for b in cfg.nodes_for(r_))
+            n2 = f"{f.fq}::{norm(r_)[:60]}"
+            col.check(pinned or dominated, n2, "reached only after the candidate was found to have parameters (or its length is pinned)",
+                      f"`{norm(r_.value)[:60]}` quantifies over the candidate's parameters and can be reached with a candidate that has none (the bare container): all([]) is "
+                      "True, so tuple / Tuple becomes a subtype of every Tuple[X, ...] and the relation is no longer transitive (Tuple[str] <= tuple <= Tuple[int, ...])", f.loc(r_))
     if n < 2:
         raise AnalysisError(f"only {n} bare-candidate branch(es) found in the per-origin handlers (anchors: _subclasscheck_tuple, _subclasscheck_frozenset)")
 
 
 # ---------------------------------------------------------------------- R16.12
+def _deep_type_not_memoised(prog: Program, col: Collector, refs: Refs):
+    """deep_type maps a VALUE to its precise type, and dispatch matches that type.  functools.lru_cache / cache key their table by
+    equality and hash of the arguments, and Python's numbers are equal across types (1 == 1.0 == True, frozenset({2, 3}) ==
+    frozenset({2.0, 3.0})): a memoised deep_type answers with the type of whichever equal value was seen first, so the rule chosen
+    depends on earlier dispatches.  (deep_issubclass is memoised on TYPES, which is fine.)"""
+    root = prog.funcs.get("funsor.typing::deep_type")
+    if root is None:
+        raise AnalysisError("anchor funsor.typing.deep_type not found")
+    handlers = [root]
+    for f in prog.functions_in(root.module):
+        for d in f.decorators:
+            if isinstance(d, ast.Call) and isinstance(d.func, ast.Attribute) and d.func.attr == "register" and norm(d.func.value) == "deep_type":
+                handlers.append(f)
+    for f in handlers:
+        memo = [d for d in f.decorators if (refs.resolve(d.func if isinstance(d, ast.Call) else d) or norm(d.func if isinstance(d, ast.Call) else d)).rsplit(".", 1)[-1]
+                in ("lru_cache", "cache", "memoize", "cached")]
+        col.check(not memo, f"{f.fq}::not memoised", "computed afresh from the value on every call",
+                  f"`{f.name}` is wrapped in `{norm(memo[0]) if memo else ''}`: the memo is keyed by == / hash of the value, and equal values of different types (1, 1.0, True; "
+                  "frozensets of them) share an entry, so deep_type returns the type of the first one seen and dispatch depends on history", f.loc())
+
+
 def _oracle_handlers_do_not_decide(prog: Program, col: Collector, refs: Refs, cat: Catalogue):
     """issubclass() raises TypeError when the candidate is a typing object (Tuple[...], FrozenSet[...]) rather than a class; KeyError
     signals a missing table entry.  Neither means 'not a subtype': the handler has to retry with a class (the origin) / fall back to
